@@ -33,6 +33,12 @@ Fixpoint tclose (t : Q) (a b : list (list (list Qc))) : bool :=
   | x :: a', y :: b' => mclose t x y && tclose t a' b'
   | _, _ => false
   end.
+Fixpoint qclose4 (t : Q) (a b : list (list (list (list Qc)))) : bool :=
+  match a, b with
+  | [], [] => true
+  | x :: a', y :: b' => tclose t x y && qclose4 t a' b'
+  | _, _ => false
+  end.
 """ % TOL
 CLOSE = {2: "mclose", 3: "tclose"}
 
@@ -73,7 +79,7 @@ def gen_cases(ctx):
     forms = ["none", "scalar", "axis", "batch", "batch-iso"]
     modes = list(MODES)
     for i in range(n):
-        kind = ["sderiv", "fd", "flowderiv", "formula"][i % 4]
+        kind = ["sderiv", "fd", "flowderiv", "formula" if ((i // 4) % 6 + i // 48) % 2 else "flowop"][i % 4]
         mode = modes[(i // 4) % 6]
         D = [2, 3][(i // 24) % 2]
         shape_t = [rng.randint(2 if rng.random() < 0.15 else 4, 6 if D == 2 else 5) for _ in range(D)]
@@ -103,6 +109,11 @@ def gen_cases(ctx):
                 which.append(f"d{chans[:2]}/d{rng.choice(letters)}")
             cases.append({"kind": "flowderiv", "D": D, "mode": mode, "which": which, "spacing": spacing, "spv": spv,
                           "data": rand_tensor(rng, [N, D] + shape_t)})
+        elif kind == "flowop":
+            shape_t = [rng.randint(2, 5 if D == 2 else 3) for _ in range(D)]
+            spacing, spv = spacing_form(rng, 1, D, forms[1 + (i // 8) % 2])
+            cases.append({"kind": "flowop", "D": D, "mode": mode, "spacing": spacing, "spv": spv[0], "shape": shape_t,
+                          "u": rand_tensor(rng, [1, D] + shape_t), "v": rand_tensor(rng, [1, D] + shape_t)})
         else:
             shape_t = [rng.randint(3, 4) for _ in range(D)]
             spacing, spv = spacing_form(rng, 1, D, forms[1 + (i // 4) % 2])
@@ -163,6 +174,17 @@ def case_terms(c, r):
             for b in range(len(c["data"])):
                 out.append(f"{CLOSE[D]} tol {deriv_term(D, c['mode'], c['spv'][b], code, c['data'][b][ch])} {nest(r['val'][key][b][0])}")
         return out
+    if k == "flowop":
+        sp = coq_list([qc(v) for v in c["spv"]])
+        dims = " ".join(str(n) + "%nat" for n in c["shape"])  # (ny nx) / (nz ny nx): tensor order
+        M = MODES[c["mode"]]
+        U, V = nest(c["u"][0]), nest(c["v"][0])
+        cl, cl1 = CLOSE[D], {2: "tclose", 3: "qclose4"}[D]
+        return [f"{cl} tol (det{D}_field (K:=QcF) {M} {sp} false {U} {dims}) {nest(r['det'])}",
+                f"{cl} tol (det{D}_field (K:=QcF) {M} {sp} true {U} {dims}) {nest(r['det_id'])}",
+                f"{cl} tol (div{D}_field (K:=QcF) {M} {sp} {U} {dims}) {nest(r['div'])}",
+                f"{cl1} tol (curl{D}_field (K:=QcF) {M} {sp} {U} {dims}) {nest(r['curl'])}",
+                f"{cl1} tol (lie{D}_field (K:=QcF) {M} {sp} {V} {U} {dims}) {nest(r['lie'])}"]
     if k == "formula":
         out = []
         for p in c["points"]:
@@ -228,7 +250,8 @@ def correspondence(ctx):
             "rule": "every mode in {forward, backward, central, forward_central_backward, prewitt, sobel} x D in {2,3} x kinds "
                     "{finite_differences along a random axis; spatial_derivatives for random key subsets of order <= 2; flow_derivatives with "
                     "quotient / shorthand / multi-component keys; jacobian_det (+-identity), divergence, curl, lie_bracket against the traced "
-                    "formulas at sampled points}; spacing forms none / scalar / per-axis / per-batch / per-batch isotropic; N in {1,2}; "
+                    "formulas at sampled points; the same four operators as whole fields against det/div/curl/lie{2,3}_field, i.e. the composition "
+                    "derivative tensors -> formula that the theorems are about}; spacing forms none / scalar / per-axis / per-batch / per-batch isotropic; N in {1,2}; "
                     "shapes 2..6 per axis; random dyadic data. evaluations = boolean comparisons inside Coq (one per key x batch item / "
                     "formula x point); distinct by full input; all cases non-trivial (random non-constant data)",
             "samples": samples, "failures": failures, "distribution": dist,
